@@ -331,6 +331,9 @@ def call_program(form, kind, probe):
     plabel, body, post, prim = probe
     src = CALL_PROLOGUE % {"t": "5" if prim else "{}", "u": '"s"' if prim else "{}",
                            "top": 'if (x === TOP) return "top";\n  ' if klabel == "arrow_top_level" else ""}
+    if klabel == "arrow_top_level" and plabel == "this_primitive":
+        # the script-level this is host defined (the engine has undefined, V8 the global object): neutralised
+        body = body.replace("typeof this", '(this === TOP ? "top" : typeof this)')
     src += kdef.replace("BODY", body) + "\no.f = f;\n" + setup
     src += "var res;\ntry {\n  res = " + call.replace("ARGS", "1, 2") + ";\n  L.push(p(res));\n"
     if flabel == "new":
